@@ -1,12 +1,13 @@
-"""C15 — GP model wrappers: bookkeeping against the model; predictions against the closed-form
-posterior built from the model's own kernel / mean / noise (validated, not proved)."""
+"""C15 — GP model wrappers: bookkeeping against the model; predictions against the verified exact posterior
+(extracted Posterior.v) and the dense numpy form, built from the model's own kernel / mean / noise."""
 import numpy as np
 import common
 
 ALLOWED_AXIOMS = set()
 TRUSTED_BASE = [
     "Coq 8.16.1 kernel (coqc); no native_compute; every C15 theorem: Closed under the global context",
-    "PARTIAL: the theorems are about the wrappers' bookkeeping only (which samples are held, which the gpytorch model is conditioned on, batching, per-objective isolation, clear/update, the train-and-freeze helpers); the posterior algebra is gpytorch's and is VALIDATED numerically, not proved: predict() is compared at 1e-6 relative with K_*^T (K + noise)^-1 (y - mean) + mean built in numpy from the model's own covar_module / mean_module / likelihood evaluated on the data the wrapper holds",
+    "theorems: (1) the wrappers' bookkeeping (GPWrapper.v: which samples are held, which the gpytorch model is conditioned on, batching, per-objective isolation, clear/update, the train-and-freeze helpers); (2) the posterior algebra (Posterior.v: rank-one Gaussian conditioning over Q = the batch (K+S)^-1 posterior with unique solution, order / batching independence, PSD preservation, variance non-negativity and monotonicity; PosteriorTab.v: the executable table form is that posterior)",
+    "gpytorch's floating-point evaluation is COMPARED, not proved: predict() vs the extracted exact posterior on the model's own covar_module / mean constant / likelihood noise values (exact dyadic inputs, index universes of <= 10 entries, a fixed number of cases per wrapper kind) at 1e-6, and vs the dense numpy form K_*^T (K + noise)^-1 (y - mean) + mean for every case (all sizes, full-matrix noise)",
     "hand-written model GPWrapper.v tied to vopy/models/gpytorch.py by correspondence on add / update / clear histories (wrapper stores vs gpytorch's own train data) — not by translation",
     "gpytorch / torch / botorch fitting are modelled (external libraries)",
 ]
@@ -26,6 +27,89 @@ def dense_posterior(gp, likelihood_noise, X, y_flat, Xs, mean_const, out_dim, in
     mu = mean_const + Ksx @ sol
     cov = Kss - Ksx @ np.linalg.solve(A, Ksx.T)
     return mu, cov
+
+
+EXACT = []      # (driver line, [(mean, var) from predict()], tag, kind) — run in one batch at the end
+
+
+def exact_cases(mdl, kind, Xs, mu, cov, tag, cap=8):
+    """queue the same prediction for the extracted Posterior model (exact conditioning on the model's own
+    kernel values, mean constant and noise): scalar / diagonal noise only, small index universes"""
+    import torch
+    Xt = torch.tensor(np.atleast_2d(Xs), dtype=torch.float64)
+    N = len(Xt); m = mdl.output_dim
+    var = np.diagonal(cov, axis1=-2, axis2=-1)
+    try:
+        with torch.no_grad():
+            if kind == "list":
+                for k in range(m):
+                    gp = mdl.model.models[k]
+                    X = mdl.train_inputs[k]; y = mdl.train_targets[k].numpy()
+                    n = len(X)
+                    if n + N > cap:
+                        continue
+                    noise = float(mdl.likelihoods[k].noise.detach().numpy().ravel()[0])
+                    c = float(gp.mean_module.constant.detach().numpy())
+                    Xa = torch.cat([X.reshape(n, Xt.shape[1]).to(torch.float64), Xt]) if n else Xt
+                    K = gp.covar_module(Xa, Xa).to_dense().numpy().astype(float)
+                    K = (K + K.T) / 2
+                    line = f"gp_post {common.enc([c] * (n + N))} {common.enc(K)} {common.enc([[i, float(y[i]), noise] for i in range(n)])} {common.enc(list(range(n, n + N)))}"
+                    EXACT.append((line, [(float(mu[i, k]), float(var[i, k])) for i in range(N)], tag + f" objective {k}", kind))
+            else:
+                gp = mdl.model
+                X = mdl.train_inputs; Y = mdl.train_targets.numpy(); n = len(X)
+                nz = np.asarray(mdl.noise_var.numpy(), dtype=float)
+                if nz.ndim > 1 and np.abs(nz - np.diag(np.diag(nz))).max() > 0:
+                    return                  # correlated task noise is not a per-observation noise: numpy oracle only
+                sk = [float(nz)] * m if nz.ndim == 0 else [float(v) for v in np.diag(nz)]
+                Xa = torch.cat([X.to(torch.float64), Xt]) if n else Xt
+                if kind == "indep":
+                    if n + N > cap:
+                        return
+                    Kb = gp.covar_module(Xa, Xa).to_dense().numpy().astype(float)      # (m, n+N, n+N)
+                    for k in range(m):
+                        K = (Kb[k] + Kb[k].T) / 2
+                        line = f"gp_post {common.enc([0.0] * (n + N))} {common.enc(K)} {common.enc([[i, float(Y[i, k]), sk[k]] for i in range(n)])} {common.enc(list(range(n, n + N)))}"
+                        EXACT.append((line, [(float(mu[i, k]), float(var[i, k])) for i in range(N)], tag + f" objective {k}", kind))
+                else:
+                    if (n + N) * m > cap + 2:
+                        return
+                    K = gp.covar_module(Xa, Xa).to_dense().numpy().astype(float)        # interleaved (point, task)
+                    K = (K + K.T) / 2
+                    obs = [[i * m + k, float(Y[i, k]), sk[k]] for i in range(n) for k in range(m)]
+                    test = [(n + i) * m + k for i in range(N) for k in range(m)]
+                    line = f"gp_post {common.enc([0.0] * ((n + N) * m))} {common.enc(K)} {common.enc(obs)} {common.enc(test)}"
+                    EXACT.append((line, [(float(mu[i, k]), float(var[i, k])) for i in range(N) for k in range(m)], tag, kind))
+    except Exception:
+        return
+
+
+def run_exact(ctx, viol, st):
+    """predict() against the extracted exact posterior (Posterior.cond via PosteriorTab.gp_post)"""
+    from fractions import Fraction
+    if not EXACT:
+        return
+    # the extracted rational arithmetic is slow (seconds per case beyond ~8 indices): keep the smallest cases of
+    # every wrapper kind, a fixed number per tier
+    per_kind = 16 if ctx.quick else 150
+    sel = []
+    for kd in ("indep", "corr", "list"):
+        ks = sorted((e for e in EXACT if e[3] == kd), key=lambda e: len(e[0]))
+        # spread over sizes: take every j-th so that larger universes are represented too
+        step = max(1, len(ks) // per_kind)
+        sel += ks[::step][:per_kind]
+    st["exact_posterior_candidates"] = len(EXACT)
+    out = ctx.model([e[0] for e in sel])
+    for (line, got, tag, kind), o in zip(sel, out):
+        res = common.dec(o)
+        st["exact_posterior_cases"] += 1
+        for (gm, gv), (wm, wv) in zip(got, res):
+            wm, wv = float(common.dec_q(wm)), float(common.dec_q(wv))
+            st["exact_posterior_points"] += 1
+            if abs(gm - wm) > 1e-6 * (1 + abs(wm)) or abs(gv - wv) > 1e-5 * (1 + abs(wv)):
+                viol.append({"signature": "posterior-differs-from-held-data", "message": f"{tag}: predict() gives mean {gm:.9g}, variance {gv:.9g}; the exact posterior of the held samples (verified model, the model's own kernel / mean / noise) is mean {wm:.9g}, variance {wv:.9g}", "replay": {"kind": kind, "tag": tag, "line": line[:4000]}})
+                break
+    del EXACT[:]
 
 
 def check_predict(mdl, kind, Xs, viol, tag):
@@ -88,6 +172,7 @@ def check_predict(mdl, kind, Xs, viol, tag):
     except Exception as e:
         return          # closed form not available for this configuration: bookkeeping checks still apply
     got_var = np.diagonal(cov, axis1=-2, axis2=-1)
+    exact_cases(mdl, kind, Xs, mu, cov, tag)
     if not (np.allclose(mu, want_mu, rtol=1e-6, atol=1e-8) and np.allclose(got_var, want_var, rtol=1e-5, atol=1e-8)):
         viol.append({"signature": "posterior-differs-from-held-data", "message": f"{tag}: predict() differs from the exact posterior of the samples the model holds (max mean error {np.abs(mu - want_mu).max():.3g}, max variance error {np.abs(got_var - want_var).max():.3g})", "replay": {"kind": kind, "tag": tag}})
 
@@ -100,7 +185,7 @@ def gp_train_data(mdl, kind):
     return (mdl.model.train_inputs[0].numpy(), mdl.model.train_targets.numpy())
 
 
-def history(ctx, kind, viol, st):
+def history(ctx, kind, viol, st, directed=None):
     """random add / update / clear history; wrapper store and gpytorch data vs the model's bookkeeping"""
     from vopy.models import CorrelatedExactGPyTorchModel, IndependentExactGPyTorchModel, GPyTorchModelListExactModel
     rng = ctx.rng
@@ -114,10 +199,10 @@ def history(ctx, kind, viol, st):
     tag = f"{cls.__name__}(d={d}, m={m})"
     ops_done = []
     script = None
-    if rng.random() < 0.4:
+    if directed is not None or rng.random() < 0.4:
         # directed: refill after a clear with the SAME number of (different) samples per objective
-        script = ["add", "update", "clear", "add", "update"] + (["add", "update"] if rng.random() < 0.5 else [])
-        script_n = rng.choice([1, 2, 3])
+        script = ["add", "update", "clear", "add", "update"] + (["add", "update"] if (rng.random() < 0.5 and directed is None) else [])
+        script_n = directed if directed is not None else rng.choice([1, 2, 3])
     for step in range(len(script) if script else rng.randint(2, 10)):
         r = rng.random()
         if script:
@@ -259,8 +344,10 @@ def factories(ctx, viol, st):
 
 def run(ctx):
     viol = []
-    st = {"history_ops": 0, "predictions": 0, "hyper_shape_checks": 0, "order_checks": 0, "factory_checks": 0}
+    st = {"history_ops": 0, "predictions": 0, "hyper_shape_checks": 0, "order_checks": 0, "factory_checks": 0, "exact_posterior_cases": 0, "exact_posterior_points": 0, "exact_posterior_candidates": 0}
     for kind in ("indep", "corr", "list"):
+        for n_same in (1, 2, 3):
+            history(ctx, kind, viol, st, directed=n_same)      # clear, then refill with the same count
         for _ in range(6 if ctx.quick else 60):
             history(ctx, kind, viol, st)
         for _ in range(2 if ctx.quick else 10):
@@ -280,6 +367,7 @@ def run(ctx):
         except Exception as e:
             viol.append({"signature": "modellist-variances-length", "message": f"model list with {d} inputs / {m} objectives: get_lengthscale_and_var raised {type(e).__name__}", "replay": {"kind": "list", "d": d, "m": m}})
     factories(ctx, viol, st)
+    run_exact(ctx, viol, st)
     return {"evaluations": sum(st.values()), "distinct_nontrivial": st["history_ops"] + st["predictions"], "traces": 18 if ctx.quick else 180,
             "rule": "add / update / clear histories (2-10 ops, input dims 1-3, 2-3 objectives, scalar and full-matrix noise, repeated inputs, int and per-row objective indices for the model list) on the three wrappers: after every op the wrapper's stores equal the history's bookkeeping, after every update gpytorch's own training data equal the snapshot held at the update, and predict() for N = 1, 2, 4 has shapes (N,m)/(N,m,m), non-negative variances and equals the closed-form posterior of the held data (model's own kernel/mean/noise); order / batching independence, variance monotonicity, hyper-parameter shapes, the train-and-freeze helpers with 0 and >= 1 initial samples",
             "samples": [{"kind": "indep", "ops": ["add", "update", "clear", "add", "update"]}], "violations": viol, "extra": st}
